@@ -11,6 +11,7 @@
 import Orbiter.Lemmas.NoPanic
 import Orbiter.Lemmas.Reach
 import Orbiter.Props.C04
+import Orbiter.Props.C16
 namespace Orbiter.C14
 open Orbiter
 
@@ -122,6 +123,56 @@ theorem ics20_panics_only_ibcgo (cfg : Cfg) (c : Ctx) (pkt : Packet) : (ics20Rec
           apply Res.PanicsIn.ite
           · intro _; exact Res.PanicsIn.err _
           · intro _; exact (send_noPanic _ _ _ _ _ _).mono (fun _ h => h.elim)
+
+/-- For a packet the adapter accepted as an orbiter transfer, `sdk.NewCoin` inside ICS-20 cannot panic either
+(the adapter validated the very coin ICS-20 builds): the only abort left is ibc-go's total-escrow invariant. -/
+theorem ics20_orbiter_packet_only_escrow (wr : Wiring) (c : Ctx) (pkt : Packet) (t : TransferAttrs) (p : Payload)
+    (ha : adaptPacket wr pkt = .ok (.orbiter t p)) :
+    (ics20Recv wr.cfg c pkt).PanicsIn (· = "ics20:total-escrow-negative") := by
+  obtain ⟨_, _, _, _, d, hd, hamt, hr⟩ := C12.c12_source_from_packet wr pkt t p ha
+  obtain ⟨h1, h2, h3⟩ := (C16.c16_accept_iff _ _ _ _).mp hr
+  -- the adapter validated the coin
+  have hcoin : coinValid t.srcDenom t.srcAmount = true := by
+    unfold adaptPacket at ha
+    simp only [hd] at ha
+    cases hrr : accAddressFromBech32 wr.cfg.hrp d.receiver with
+    | none => simp [hrr] at ha
+    | some r =>
+      simp only [hrr] at ha
+      split at ha
+      · cases ha
+      · obtain ⟨p', _, ha⟩ := Res.bind_eq_ok.mp ha
+        simp only [hamt, Res.pure_eq, Res.bind_ok, hr] at ha
+        split at ha
+        · cases ha
+        · rename_i hc
+          simpa using hc
+  unfold ics20Recv
+  simp only [hd, hamt, Res.pure_eq, Res.bind_ok]
+  apply Res.PanicsIn.guard; intro _
+  apply Res.PanicsIn.guard; intro _
+  apply Res.PanicsIn.guard; intro _
+  apply Res.PanicsIn.guard; intro _
+  apply Res.PanicsIn.guard; intro _
+  cases accAddressFromBech32 wr.cfg.hrp d.receiver with
+  | none => simp only [Res.bind_err]; exact Res.PanicsIn.err _
+  | some r =>
+    simp only [Res.bind_ok, h1, ↓reduceIte]
+    have hden : ibcDenom wr.cfg (d.denom.drop (denomPrefix pkt.srcPort pkt.srcChan).length).toString = t.srcDenom := by
+      unfold ibcDenom
+      rw [← h2]
+      simp [h3]
+    rw [hden]
+    refine Res.PanicsIn.bind (P := (· = "ics20:total-escrow-negative")) ?_ ?_
+    · unfold newCoin; rw [hcoin]; exact Res.PanicsIn.ok _
+    · intro _ _
+      apply Res.PanicsIn.guard; intro _
+      refine Res.PanicsIn.bind (P := (· = "ics20:total-escrow-negative")) ((send_noPanic _ _ _ _ _ _).mono (fun _ h => h.elim)) ?_
+      intro c1 _
+      apply Res.PanicsIn.ite
+      · intro _ s h
+        simp only [Res.panic.injEq] at h; exact h.symm
+      · intro _; exact Res.PanicsIn.pure _
 
 /-! ### actions -/
 
@@ -469,5 +520,43 @@ theorem c14_never_panics (cfg : Cfg) (π : OneofOrder) (φ : Faults) (o : OrbSta
                     intro r _
                     obtain ⟨c3, t3, o3⟩ := r
                     exact Res.PanicsIn.bind (emit_noPanic _ _ _) (fun _ _ => Res.PanicsIn.pure _)
+
+/-- For orbiter transfers the only abort is ibc-go's total-escrow invariant. -/
+theorem c14_orbiter_transfer_panics_only_escrow (cfg : Cfg) (π : OneofOrder) (φ : Faults) (o : OrbState) (c0 : Ctx) (pkt : Packet)
+    (t : TransferAttrs) (p : Payload) (ha : adaptPacket (appWiring cfg π) pkt = .ok (.orbiter t p)) (s : String)
+    (h : (mwOnRecv (appWiring cfg π) φ o c0 pkt).ack = .panic s) : s = "ics20:total-escrow-negative" := by
+  unfold mwOnRecv at h
+  split at h
+  · cases h
+  · split at h
+    · cases h
+    · split at h
+      · cases h
+      · simp only [ha] at h
+        cases hh : beforeTransferHook (appWiring cfg π) φ o c0 t p with
+        | err e => simp [hh] at h
+        | panic e => exact (hook_noPanic _ φ o c0 t p e hh).elim
+        | ok c1 =>
+          simp only [hh] at h
+          cases hw : wrappedApp (appWiring cfg π) φ c1 pkt with
+          | err e => simp [hw] at h
+          | panic e =>
+            simp only [hw, Ack.panic.injEq] at h
+            subst h
+            unfold wrappedApp at hw
+            exact (Res.PanicsIn.bind (P := (· = "ics20:total-escrow-negative")) ((call_noPanic _ _ _).mono (fun _ x => x.elim))
+              (fun c _ => ics20_orbiter_packet_only_escrow (appWiring cfg π) c pkt t p ha)) e hw
+          | ok c2 =>
+            simp only [hw] at h
+            cases hp : processPayload (appWiring cfg π) φ o c2 t p with
+            | ok r => obtain ⟨c3, o'⟩ := r; simp [hp] at h
+            | err e => simp [hp] at h
+            | panic e =>
+              exfalso
+              unfold processPayload at hp
+              refine (Res.PanicsIn.bind (P := fun _ => False) (dispatchPayload_noPanic cfg π φ o c2 t p) ?_) e hp
+              intro r _
+              obtain ⟨c3, t3, o3⟩ := r
+              exact Res.PanicsIn.bind (emit_noPanic _ _ _) (fun _ _ => Res.PanicsIn.pure _)
 
 end Orbiter.C14
